@@ -73,5 +73,7 @@ def respellings(hexkey, rng=None):
         "+" + hexkey[1:],
         hexkey[:-1] + "_",
         hexkey + "\x00",
+        # abbreviations (key-id style): leading / trailing parts of the key
+        hexkey[:16], hexkey[:32], hexkey[:40], hexkey[:62], hexkey[:63], hexkey[-16:], hexkey[-40:], hexkey[:8],
     ]
     return [s for s in out if s != hexkey]
